@@ -85,7 +85,11 @@ Return == /\ IsEv("return") /\ st \in {"converged", "capped", "maybe"}
 ReturnErr == /\ IsEv("return") /\ Ev.err /\ st # "idle"
              /\ st' = "idle" /\ UNCHANGED <<k, likPrev, recPrev, eps, maxSteps>>
 
-Next == Begin \/ Hook0 \/ HookI \/ HookMaybe \/ Return \/ ReturnErr
+(* the recorder cut the run off (still iterating after its budget): nothing is promised about the end *)
+Abort == /\ IsEv("abort") /\ st \in {"iterating", "maybe"}
+         /\ st' = "idle" /\ UNCHANGED <<k, likPrev, recPrev, eps, maxSteps>>
+
+Next == Begin \/ Hook0 \/ HookI \/ HookMaybe \/ Return \/ ReturnErr \/ Abort
 Spec == Init /\ [][Next]_vars
 
 HighWater == TLCSet(1, IF TLCGet(1) < l THEN l ELSE TLCGet(1))
